@@ -303,6 +303,14 @@ def shard_a(ctx, arg):
             return {"case": case, "locs_per_node_in_rpo": snap["node_locs"], "rpo": [nd.name for nd in g.rpo]}
         nkeys, nontriv = compare(ctx, snap, UD, DU, "A", describe)
         ctx.count("use_keys_compared", nkeys)
+        if j % 4 == 1:
+            # the chains of the SAME graph object are built a second time (an analysis repeated after the first one, a second consumer): same answer
+            ctx.count("build_def_use_second_call_on_the_same_graph")
+            try:
+                UD2, DU2 = dataflow.build_def_use(g, case["params"])
+                compare(ctx, snap, UD2, DU2, "A-second-call-on-the-same-graph", describe)
+            except Exception as e:
+                ctx.violation("build-def-use-raises-on-second-call", "a second build_def_use on the same graph raises", {"case": case, "exc": exc_str(e)})
         if nontriv:
             ctx.sig("A", case["n"], tuple(map(tuple, case["edges"])), tuple(map(tuple, case["catch"])), repr(case["stmts"]), tuple(case["params"]))
         if arg["shard"] == 0 and j in (5, 50):
